@@ -31,6 +31,8 @@ type vpBcastEnv struct {
 	cancelled bool
 	// the network answers rebroadcasts of these with "already confirmed"
 	confirmedByNet map[chainhash.Hash]bool
+	// rebroadcasts of these fail with a plain error (no peer reachable ...)
+	failRebroadcast map[chainhash.Hash]bool
 	// Stop is called (from another goroutine) while a rebroadcast callback is
 	// waiting for its peers
 	stopInCallback bool
@@ -56,7 +58,7 @@ func VerifH_C15_handler() {
 	txs := []*wire.MsgTx{parent, child, other}
 	hashes := []chainhash.Hash{parent.TxHash(), child.TxHash(), other.TxHash()}
 
-	e := &vpBcastEnv{ntfns: make(chan blockntfns.BlockNtfn), outcome: map[chainhash.Hash]error{}, confirmedByNet: map[chainhash.Hash]bool{}}
+	e := &vpBcastEnv{ntfns: make(chan blockntfns.BlockNtfn), outcome: map[chainhash.Hash]error{}, confirmedByNet: map[chainhash.Hash]bool{}, failRebroadcast: map[chainhash.Hash]bool{}}
 	cfg := &Config{
 		Broadcast: func(tx *wire.MsgTx) error {
 			h := tx.TxHash()
@@ -79,6 +81,9 @@ func VerifH_C15_handler() {
 				}
 				if e.confirmedByNet[h] {
 					return &BroadcastError{Code: Confirmed, Reason: "already confirmed"}
+				}
+				if e.failRebroadcast[h] {
+					return errors.New("vp: no peer took the transaction")
 				}
 			}
 			return e.outcome[h]
@@ -175,15 +180,31 @@ func VerifH_C15_handler() {
 				delete(rejected, hashes[k])
 			}
 		case 1: // a block event: starts a rebroadcast of everything pending
-			if vpParam("netconfirm", 1) == 1 && vpRange("networkReportsConfirmed", 0, 1) == 1 {
-				// from now on the peers answer "already confirmed" for one tx
-				e.confirmedByNet[hashes[vpRange("tx", 0, 2)]] = true
+			e.failRebroadcast = map[chainhash.Hash]bool{}
+			pendingNow := false
+			for _, h := range hashes {
+				if accepted[h] && !confirmed[h] {
+					pendingNow = true
+				}
+			}
+			if pendingNow && vpParam("netbehaviour", 1) == 1 {
+				// how the network answers this round's rebroadcasts: normally, or
+				// "already confirmed" for one tx (from now on), or a plain error for
+				// one tx (this round only; the others are still due)
+				switch nb := vpRange("networkBehaviour", 0, 6); {
+				case nb >= 1 && nb <= 3:
+					e.confirmedByNet[hashes[nb-1]] = true
+				case nb >= 4:
+					e.failRebroadcast[hashes[nb-4]] = true
+					vpReach("a-rebroadcast-fails")
+				}
 			}
 			before := len(e.calls)
 			e.batches++
 			batch := e.batches
 			e.ntfns <- blockntfns.NewBlockConnected(wire.BlockHeader{}, uint32(ev))
 			vpQuiesce()
+			e.failRebroadcast = map[chainhash.Hash]bool{}
 			vpReach("block")
 			checkBatch(before, batch)
 		case 3: // two block events, the second while the first's rebroadcast still waits for its peers
